@@ -126,6 +126,8 @@ fn all_sequences(alpha: u32, len: usize) -> Vec<Vec<u32>> {
     out
 }
 
+static SAMPLES: std::sync::Mutex<Vec<Value>> = std::sync::Mutex::new(Vec::new());
+
 #[derive(Default)]
 struct Stats {
     calls: u64,
@@ -276,6 +278,9 @@ fn check_config(alpha: u32, len: usize, m: usize, l: usize, history_pool: &[Vec<
         }
     }
     st.distinct_sigs += sigs.len() as u64;
+    if let Some((s, Ok(r))) = runs.iter().find(|(s, _)| s.len() >= 3 && s[0] != s[1]) {
+        SAMPLES.lock().unwrap().push(json!({"m": m, "l": l, "sequence": s, "selected_pairs_per_position": r.selected.iter().map(|x| x.iter().collect::<Vec<_>>()).collect::<Vec<_>>(), "signature": r.sig.iter().map(|v| format!("{:#x}", v)).collect::<Vec<_>>()}));
+    }
     // history independence: 0, 1 or 2 earlier hash_set calls on the same instance
     let targets: Vec<&Vec<u32>> = seqs.iter().step_by((seqs.len() / 64).max(1)).collect();
     let mut hist_lists: Vec<Vec<&Vec<u32>>> = Vec::new();
@@ -339,6 +344,11 @@ pub fn run(ctx: &Ctx) -> i32 {
                     ctx.violation(&x.key, &x.what, x.case);
                 }
             }
+        }
+    }
+    for (i, sv) in SAMPLES.lock().unwrap().iter().enumerate() {
+        if i % 17 == 5 {
+            ctx.sample(sv.clone());
         }
     }
     println!(
